@@ -4,7 +4,7 @@ import os
 import random
 import numpy as np
 from harness import core, gen, diskimg, oracle
-from harness.props import c01, c06, c11
+from harness.props import c01, c02, c06, c11
 from harness.props import taste_common as tc
 
 PID = 'C14'
@@ -130,6 +130,12 @@ def run_case(seed):
     states = [(pf0, p0, diskimg.image_sx(img0))]       # (pure contents, impl directory, model image sx)
     desc_ops = []
     model_ok = True
+    spec_ops = []          # the chain as the specification side sees it (theorem C14_full_chain), while the models follow
+    model_imgs = []        # the tool-model image after each of these hops
+
+    def pf_sx(pf):
+        return [c02.gheader_sx(pf), [[c02.lvboxes_sx(pf, lv), gen.level_to_sx(pf, lv), c02.cellh_sx(pf, lv)[3], c02.cellh_sx(pf, lv)[4]]
+                                     for lv in range(pf.nlevels)]]
     for hop, kind in enumerate(ops):
         cur, cur_path, cur_msx = states[-1]
         keys = c01.reader_keys(cur.fields)
@@ -147,6 +153,7 @@ def run_case(seed):
             nxt = pure_colander(cur, variables, limit)
             if model_ok:
                 mres = model.call('colander', [[v.encode() for v in variables], [limit], cur_msx])
+                spec_ops.append([0, [v.encode() for v in variables], [limit]])
         elif kind == 'chef':
             rkind, ncomp, tmpl = c11.pick_recipe(rng, seed, hop)
             a, b = rng.choice(keys), rng.choice(keys)
@@ -178,13 +185,17 @@ def run_case(seed):
                         table.append([lvi, list(lo), list(hi), [np.asarray(new[..., c], dtype='<f8').tobytes(order='F')
                                                                 for c in range(new.shape[-1])]])
                 mres = model.call('chef', [keep_ids, [x.encode() for x in nxt.fields], table, cur_msx])
+                spec_ops.append([2, keep_ids, [x.encode() for x in nxt.fields], table])
         else:
             if kind == 'combine_ancestor':
                 cands = [s for s in states[:-1] if s[0].nlevels == cur.nlevels]
                 if not cands:
                     kind = 'combine_sibling'
+            other_ref = None
             if kind == 'combine_ancestor':
-                other, other_path, other_msx = rng.choice(cands)
+                chosen = rng.choice(cands)
+                other, other_path, other_msx = chosen
+                other_ref = [1, next(i for i, st_ in enumerate(states) if st_ is chosen)]
             else:
                 other = c06.second_plotfile(rng, _with_layout(rng, cur), 'different')
                 other_path = os.path.join(root, f"sibling{hop}")
@@ -207,6 +218,7 @@ def run_case(seed):
                 break
             if model_ok:
                 mres = model.call('combine', [[x.encode() for x in n1], [x.encode() for x in n2], cur_msx, other_msx])
+                spec_ops.append([1, [x.encode() for x in n1], [x.encode() for x in n2], other_ref or [0, pf_sx(other)]])
         desc_ops.append(step)
         count(f"op={step['op']}")
         out['evals'] += 1
@@ -238,6 +250,7 @@ def run_case(seed):
                 model_ok = False
             else:
                 msx = mres[1]
+                model_imgs.append(msx)
                 d = oracle.same_image(iimg, oracle.image_from_sx(msx))
                 if d:
                     out['disagreements'].append(dict(desc, kind='model-vs-impl',
@@ -248,6 +261,33 @@ def run_case(seed):
     else:
         if not out['samples'] and len(desc_ops) >= 2:
             out['samples'].append(dict(seed=seed, ops=desc_ops, final_fields=list(states[-1][0].fields)))
+    # specification side: the composed pure operations of theorem C14_full_chain on the abstract plotfile; the image of
+    # their k-th state must be what the composed tool models (and the tools) wrote after hop k
+    nspec = min(len(spec_ops), len(model_imgs))
+    if nspec:
+        st2, sp = model.call('full_chain', [pf_sx(pf0), spec_ops[:nspec]])
+        sdesc = dict(seed=seed, ops=desc_ops, fields0=c01.reader_keys(pf0.fields), meta=pf0.meta)
+        if st2 != 'ok':
+            out['disagreements'].append(dict(sdesc, kind='spec', what='the specification entry refuses the abstract plotfile or the chain',
+                                             correspondence='Entry.e_full_chain'))
+        else:
+            d0 = oracle.same_image(img0, oracle.image_from_sx(sp[0]))
+            if d0:
+                out['disagreements'].append(dict(sdesc, kind='encode', what='Abstract.pf_disk of the abstract plotfile differs from the directory on disk: ' + d0,
+                                                 correspondence='Plotfile.Abstract.pf_disk vs the generator writer'))
+            for kk in range(nspec):
+                if kk >= len(sp[1]) or not sp[1][kk]:
+                    out['disagreements'].append(dict(sdesc, kind='spec-vs-model', hop=kk,
+                                                     what=f"theorem C14_full_chain instance: the pure operation of hop {kk} is undefined although the tool model succeeded",
+                                                     correspondence='Writers.FullPipeline.full_pipeline'))
+                    break
+                dsp = oracle.same_image(oracle.image_from_sx(model_imgs[kk]), oracle.image_from_sx(sp[1][kk][0]))
+                if dsp:
+                    out['disagreements'].append(dict(sdesc, kind='spec-vs-model', hop=kk,
+                                                     what=f"theorem C14_full_chain instance: after hop {kk} the composed tool models differ from pf_disk of the composed pure operations: " + dsp,
+                                                     correspondence='Writers.FullPipeline.full_pipeline'))
+                    break
+            count(f"specification chain compared over {nspec} hop(s)")
     out['keys'].append(core.khash(seed, tuple(o['op'] for o in desc_ops)))
     return out
 
@@ -376,6 +416,9 @@ def run(tier, seed):
     rep.obligation('correspondence: the composition of the extracted writer models (colander, combine, chef), each fed the previous '
                    "model's output image, = the directory written by the tool chain after every hop",
                    not any(v[0].get('kind') == 'model-vs-impl' for v in rep.violations))
+    rep.obligation('theorem instance (C14_full_chain) on every case: the images of the composed pure operations (colander_spec, combine_pure, '
+                   'chef_spec) = the images written by the composed tool models after every hop, evaluated by the extracted code',
+                   not any(v[0].get('kind') in ('spec-vs-model', 'spec', 'encode') for v in rep.violations))
     return rep.finish(
         level_rule=("cases = generated 3D plotfile x operation sequence over {colander(vars, limit), chef(user recipe, kept), combine with a "
                     "fresh sibling on the current mesh, combine with an ancestor of the pipeline}: every sequence of length <= 2 over the "
